@@ -9,9 +9,10 @@ os.environ["LP_COVERAGE"] = "1"
 import check
 libdir, err = check.build_lib()
 assert not err, err
-for f in glob.glob(os.path.join(libdir, "obj", "*.gcda")):
-    os.unlink(f)
-props = [c["property_id"] for c in json.load(open(os.path.join(V, "MANIFEST.json")))["checks"]]
+if not os.environ.get("COV_KEEP"):  # COV_KEEP=1 COV_PROPS="C18": add the listed checks to the counters of an earlier run
+    for f in glob.glob(os.path.join(libdir, "obj", "*.gcda")):
+        os.unlink(f)
+props = os.environ.get("COV_PROPS", "").split() or [c["property_id"] for c in json.load(open(os.path.join(V, "MANIFEST.json")))["checks"]]
 for p in props:
     r = subprocess.run(["python3", os.path.join(V, "check.py"), p, "--tier", "quick"], cwd=V, env=env, stdout=subprocess.PIPE, stderr=subprocess.STDOUT, text=True)
     print(p, r.stdout.strip().splitlines()[-1][:120], flush=True)
